@@ -15,8 +15,13 @@ range, `%` by a zero check window).  Proved here:
     account and from each other, and a gauge lists each denomination once.  It is proved to hold
     whenever every gauge started no later than `now`, lasts ≥ a day and its escrow holds at least
     each recorded amount (`C05_gauges_safe_after_creation`) — in particular right after creation.
-    That releases stay on schedule at every later block (the monotonicity of `ratio·A` against the
-    amount already withdrawn) is NOT proved here; it is the content of the hypothesis.
+    That a gauge which is on schedule stays safe at every later block (the monotonicity of
+    `ratio·A` against the amount already withdrawn) is proved per gauge in
+    `C12_on_schedule_gauge_is_safe_later` (Props/C12.lean — the helper files of the two modules
+    cannot be imported together): with the escrow holding `A − cumulative now1` after a release,
+    the amount computed at any later `now2` is `cumulative now2 − cumulative now1`, non-negative
+    and within int64, and the division is defined.  What remains a hypothesis here is the frame
+    fact that nothing but a gauge's own deposits and releases moves its escrow account.
 * sizes are unbounded `Int` in the model, matching the repaired code that sums the credited sizes
   in arbitrary precision: `total = Σ fileSize·|proofs| ≥ 1` as soon as somebody is credited.
 * the mint BeginBlocker (`Canine.Mint.blockMint`) is a total function; the amounts handed to
